@@ -10,6 +10,10 @@ from sim import wire
 from sim import world as W
 from vlib.harness import hyp_part, EnumPart
 
+import os
+
+# the quick tier runs in one process unless VERIF_JOBS asks for more (the box is shared)
+SERIAL = os.environ.get("VERIF_TIER") == "quick" and not os.environ.get("VERIF_JOBS")
 PID = "C47"
 TITLE = "A connection is usable only after a successful handshake"
 LEVEL = "exploration"
